@@ -76,6 +76,11 @@ func drawNet(r *simkit.Run, prof string) *NetCfg {
 		}
 		n.SubsidyInterval = []int32{150, 10, 3, 1}[c.Intn(4, "halving2")]
 	}
+	if (prof == "consensus" || prof == "utxo") && c.Bool(150, "pre-bip34-network") {
+		// a network on which BIP34/65/66 never activate during the run:
+		// duplicate coinbases (BIP30) become possible
+		n.BIP34, n.BIP65, n.BIP66 = 1000000, 1000000, 1000000
+	}
 	act := uint32(1)
 	if c.Bool(250, "late-activation") {
 		act = uint32(simkit.Range(c, 2, 12, "act-height"))
@@ -137,7 +142,7 @@ func run(r *simkit.Run) {
 		}
 		cfg.Mining = mining.Policy{
 			BlockMinWeight:    uint32([]int{0, 2000, 400000}[c.Intn(3, "min-weight")]),
-			BlockMaxWeight:    uint32([]int{4000000 - 4000, 3000000, 6000}[c.Intn(3, "max-weight")]),
+			BlockMaxWeight:    uint32([]int{4000000 - 4000, 3000000, 6000, 1200 + c.Intn(6000, "max-weight-fine"), 1200 + c.Intn(2500, "max-weight-finer")}[c.Intn(5, "max-weight")]),
 			BlockMinSize:      0,
 			BlockMaxSize:      uint32([]int{1000000 - 1000, 750000}[c.Intn(2, "max-size")]),
 			BlockPrioritySize: uint32([]int{0, 50000, 2000}[c.Intn(3, "prio-size")]),
@@ -221,6 +226,15 @@ func run(r *simkit.Run) {
 		if prof == "selection" {
 			wInv = 5
 		}
+		if prof == "headers" {
+			wInv = 2
+		}
+		if os.Getenv("VERIF_MODE") == "determinism" {
+			// after an invalidation several equally heavy candidates can be
+			// left and the node picks among them in map order (a tie, DESIGN
+			// §1.4): such runs are judged but not part of the replay claim
+			wInv = 0
+		}
 		wHdr, wQry, wAri := 0, 0, 0
 		switch prof {
 		case "headers":
@@ -254,9 +268,25 @@ func run(r *simkit.Run) {
 			s.CloneCompare(c.Bool(500, "clone-flush-first"))
 		case 14: // submit a new transaction
 			var t *MTx
-			if k := simkit.Pick(c, "ptx-kind", 50, 25, 15, 10, 8); k == 4 {
+			switch k := simkit.Pick(c, "ptx-kind", 50, 25, 15, 10, 8, 5); k {
+			case 4:
 				t = s.buildTargetedReplacement()
-			} else {
+			case 5:
+				// a burst of sigop-heavy transactions (4 of them reach the
+				// block's sigop cost limit)
+				s.heavySigops = true
+				for j := 0; j < 4; j++ {
+					if h := s.buildPoolTx(0); h != nil {
+						s.Submit(h, 0)
+					}
+				}
+				s.heavySigops = false
+				s.CheckPool("submit")
+				if c.Bool(600, "template-after-heavy-burst") {
+					s.CheckTemplate()
+				}
+				continue
+			default:
 				t = s.buildPoolTx(k)
 			}
 			if t == nil {
@@ -362,6 +392,15 @@ func run(r *simkit.Run) {
 				continue
 			}
 			b := cands[c.Intn(len(cands), "invalidate")]
+			if s.markedInvalid == nil {
+				s.markedInvalid = map[*MBlock]bool{}
+			}
+			wasMain := b.IsAncestorOf(s.n.Tip())
+			for _, d := range w.Blocks[1:] {
+				if b.IsAncestorOf(d) && s.nodeKnown(d) && (!wasMain || d.IsAncestorOf(s.n.Tip())) {
+					s.markedInvalid[d] = true
+				}
+			}
 			err := n.Chain.InvalidateBlock(&b.Hash)
 			s.everInv = true
 			if !s.excluded(b) {
@@ -391,6 +430,11 @@ func run(r *simkit.Run) {
 			// the block itself is a candidate again (descendants that were
 			// invalidated separately, and invalidated ancestors, stay excluded)
 			delete(s.manualInv, b)
+			for _, d := range w.Blocks[1:] {
+				if b.IsAncestorOf(d) {
+					delete(s.markedInvalid, d)
+				}
+			}
 			r.Event("reconsider", "%v err=%v", b, err != nil)
 			r.Sig("reconsider")
 			r.Probe("reconsider")
